@@ -3,8 +3,8 @@ from verif import Case
 from gen_util import *
 import pyref, pyhdr
 
-MODULES = ["WowSrp.Props.C12"]
-THEOREMS = ["C12_step_projection", "C12_interleaving", "C12_interleaving_fresh", "C12_interleaving_wrath_client", "C12_interleaving_wrath_server", "C12_no_shared_state", "C12_no_shared_state_wrath", "C12_pair_is_two_fields", "C12_unsplit_iff", "C12_unsplit_refused_iff", "C12_unsplit_result", "C12_split_unsplit", "C12_unsplit_differ", "C12_unsplit_one_byte", "C12_isPairOf_symm", "C12_unsplit_own_halves", "C12_static_facts"]
+MODULES = ["WowSrp.Props.C12", "WowSrp.Props.C12Wrath"]
+THEOREMS = ["C12_step_projection", "C12_interleaving", "C12_interleaving_fresh", "C12_interleaving_wrath_client", "C12_interleaving_wrath_server", "C12_no_shared_state", "C12_no_shared_state_wrath", "C12_pair_is_two_fields", "C12_unsplit_iff", "C12_unsplit_refused_iff", "C12_unsplit_result", "C12_split_unsplit", "C12_unsplit_differ", "C12_unsplit_one_byte", "C12_isPairOf_symm", "C12_unsplit_own_halves", "C12_static_facts", "C12_no_shared_state_wrath_facade"]
 RULE = ("random op lists over {encrypt chunk, decrypt chunk, split, clone-and-continue-on-the-clone, unsplit (Vanilla)} on the real combined objects "
         "of all three expansions, compared per direction with an independent simulation of two single-direction ciphers; Vanilla re-joining / pair test "
         "over key pairs that are equal, differ in exactly one byte at each of the 40 positions, or are unrelated; the two halves moved to two OS threads "
@@ -39,6 +39,23 @@ def generate(rng, tier):
             do = [o for o in ops if o.startswith("d:")]
             cs.append(Case(" ".join(("hdr %s %s %s %s" % (exp, role, K.hex(), " ".join(eo))).split()), "separate-encrypter-" + exp + role, None, dict(nb=0, group=gid, part="enc")))
             cs.append(Case(" ".join(("hdr %s %s %s %s" % (exp, role, K.hex(), " ".join(do))).split()), "separate-decrypter-" + exp + role, None, dict(nb=0, group=gid, part="dec")))
+    # cloning loses nothing: a clone taken at any point continues exactly like the original, also between the two
+    # steps of a large Wrath header
+    for _ in range(40 if tier == "quick" else 600):
+        K = rbytes(rng, 40)
+        peer = pyhdr.Session("w", "s", K)
+        ops = []
+        for _ in range(rng.randint(1, 6)):
+            size = rng.choice([rng.randint(0, 0x7FFF), rng.randint(0x8000, 0x7FFFFF)])
+            wire = peer.e.enc(pyref.wrath_server_header_plain(size, rng.getrandbits(16)))
+            if rng.random() < 0.5: ops.append("clone")
+            ops.append("at:" + wire[:4].hex())
+            if len(wire) == 5:
+                if rng.random() < 0.7: ops.append(rng.choice(["clone", "split", "clone"]))
+                ops.append("lg:" + wire[4:].hex())
+            if rng.random() < 0.3: ops.append("e:" + hx(rbytes(rng, rng.randint(0, 8))))
+        ops.append("pr")
+        cs.append(Case("hdr w c %s %s" % (K.hex(), " ".join(ops)), "clone-mid-large-header", pyhdr.expected_line("w", "c", K, ops), dict(nb=3)))
     # unsplit / is_pair_of over key pairs
     K = rbytes(rng, 40)
     def pw(K2, kind):
